@@ -1,7 +1,7 @@
 (* C11  Interrupted or failing stores never validate a mixed image silently.
    Statements only; proofs in Proof/PersistLemmas.v.  A crash is a write fault script: the first k writes
    are performed, the next one transfers only its first j octets (Fshort j; j = 0: whole-write granularity). *)
-From Ufw Require Import Base.Bits Model.Persist Proof.PersistLemmas.
+From Ufw Require Import Base.Bits Model.Persist Proof.PersistLemmas Proof.PersistRegion Proof.PersistTorn.
 Local Open Scope N_scope.
 
 (* whenever a validation succeeds, the checksum on the medium is the algorithm applied to the data on the medium *)
@@ -43,6 +43,31 @@ Theorem C11_fetch_io_error : forall st m offset n d m', fetch_part st m offset n
   exists l, m_log m' = m_log m ++ l /\ all_full l.
 Proof. exact fetch_no_silent_fault. Qed.
 Print Assumptions C11_fetch_io_error.
+
+(* octet-granular cut points.  A store issues exactly two write calls (data, checksum); the cuts are: before the data write
+   (C11_crash_before_data), INSIDE the data write after k octets, between the writes (C11_crash_after_data), INSIDE the checksum write,
+   none.  In each case IO_ERROR is reported and the medium holds exactly "old overlaid with what was written"; what a later validation
+   says about that image is C11_validate_consistent. *)
+Theorem C11_crash_torn_data : forall step st m src offset n k r,
+  wfr st m -> m_wr m = Fshort k :: r -> offset + n <= p_dsize st -> n <= N.of_nat (length src) -> k < n ->
+  exists m', store_part step st m src offset n = (PIoError, m') /\
+    at_ m' (p_daddr st) (p_dsize st) = overlay (at_ m (p_daddr st) (p_dsize st)) offset (firstn (N.to_nat k) src) /\
+    at_ m' (p_caddr st) (p_csize st) = at_ m (p_caddr st) (p_csize st).
+Proof. exact crash_torn_data. Qed.
+Print Assumptions C11_crash_torn_data.
+Theorem C11_crash_torn_checksum : forall step st m src offset n k r,
+  wfr st m -> sum_range step st -> m_wr m = Fok :: Fshort k :: r -> offset + n <= p_dsize st -> n <= N.of_nat (length src) -> k < p_csize st ->
+  let new := overlay (at_ m (p_daddr st) (p_dsize st)) offset (firstn (N.to_nat n) src) in
+  exists m', store_part step st m src offset n = (PIoError, m') /\
+    at_ m' (p_daddr st) (p_dsize st) = new /\
+    at_ m' (p_caddr st) (p_csize st) =
+      blit (at_ m (p_caddr st) (p_csize st)) 0 (firstn (N.to_nat k) (le_bytes (N.to_nat (p_csize st)) (cks step (p_init st) new))).
+Proof. exact crash_torn_checksum. Qed.
+Print Assumptions C11_crash_torn_checksum.
+(* reset never reports a short or failed write as success either *)
+Theorem C11_reset_io_error : forall st m item m', reset st m item = (PSuccess, m') -> exists l, m_log m' = m_log m ++ l /\ all_full l.
+Proof. exact reset_no_silent_fault. Qed.
+Print Assumptions C11_reset_io_error.
 
 Example C11_example :
   let st := {| p_caddr := 4; p_csize := 2; p_dsize := 3; p_init := 0; p_bsize := 1 |} in
